@@ -392,6 +392,7 @@ def sign_match_cases(rng, res, n, base=None):
             variant = draw(rng, ["sign_verify_ok", "verify_wrong_key", "verify_unsigned", "verify_with_append", "both_key_kinds",
                                   "missing_file", "sign_bad_key", "link_two_keys", "match_equal", "match_changed", "match_missing_link", "match_other_algorithm", "match_no_digest", "match_extra_file",
                                   "match_empty_name_changed", "match_empty_name_equal", "match_colon_path_changed", "match_colon_path_equal",
+                                  "match_exclude_replaces_defaults", "match_exclude_replaces_defaults_equal",
                                   "link_append", "link_one_key", "verify_gpg_no_id", "verify_with_output", "no_key_arg",
                                   "verify_with_empty_output", "verify_many", "verify_many", "verify_many", "link_verify_gpg_no_id",
                                   "verify_both_key_kinds", "verify_both_key_kinds"], base, j)
@@ -508,6 +509,18 @@ def sign_match_cases(rng, res, n, base=None):
                     open("a.txt", "w").write("changed\n"); outcome = "differ"
                 elif variant == "match_extra_file":
                     open("b.txt", "w").write("b\n"); argv += ["b.txt"]; outcome = "differ"
+                elif variant.startswith("match_exclude_replaces_defaults"):
+                    # patterns given with --exclude REPLACE the default ones (as everywhere in in-toto): a stray byte-code
+                    # file is then a local file like any other - not in the products, unless the step recorded it
+                    open("app.pyc", "w").write("pyc\n")
+                    prods = {"a.txt": {"sha256": hashlib.sha256(b"a\n").hexdigest()}}
+                    if variant.endswith("equal"):
+                        prods["app.pyc"] = {"sha256": hashlib.sha256(b"pyc\n").hexdigest()}
+                    else:
+                        outcome = "differ"
+                    lk = Link(name="s", products=prods)
+                    (Envelope.from_signable(lk) if dsse else Metablock(signed=lk)).dump(os.path.join(d, "s.link"))
+                    argv = ["--link", os.path.join(d, "s.link"), "--paths", "a.txt", "app.pyc", "--exclude", "*.tmp"]
                 elif variant.startswith("match_empty_name"):
                     # the prefix option strips the whole path: the product is recorded - and compared - under the empty name
                     lk = Link(name="s", products={"": {"sha256": hashlib.sha256(b"a\n").hexdigest()}})
